@@ -930,7 +930,8 @@ def c11_loop(ctx, verdict, intensive=False):
             if io.startswith('PANIC'):
                 msg = 'the receive path panicked: ' + io[:200]
             elif len(f) >= 4 and (f[1] == '1' or f[2] != '0'):
-                msg = 'after garbage on a connection the session was closed (closed=%s, %s Close calls on its connections): one undecodable message tore the whole session down instead of being dropped' % (f[1], f[2])
+                msg = ('after garbage on a connection the session was closed (%s Close calls on its connections): one undecodable message tore the whole session down instead of being dropped' % f[2]) if f[1] == '1' else \
+                    ('after garbage on a connection Close was called %s time(s) on connections of the session (the session itself stays open): an undecodable message must be dropped with no effect' % f[2])
             elif len(f) >= 4 and f[3] != '0':
                 msg = 'the session sent %s frame(s) of its own in reaction to received records' % f[3]
             else:
@@ -1065,8 +1066,6 @@ def c10s_oracle(line, meta, io):
                 exp, expret = reprs(opi, chunks), (str(L), '0')
             if data != exp or ncl:
                 return 'operation %d (%s): records on the connection carry %s, expected %s' % (opi, op, data, exp)
-            if (n, err) != expret:
-                return 'operation %d (%s) returned (%s, %s), expected %s' % (opi, op, n, err, expret)
         elif p[0] == 'F':
             lens = [int(x) for x in p[2].split(',')]
             chunks, off, stop_at = [], 0, None
